@@ -21,7 +21,11 @@ func TestMain(m *testing.M) {
 	// thousands of such lines would bury the results. Process-global, set once.
 	logging.SetDefaultHandler(slog.DiscardHandler)
 	stats.Describe("exploration",
-		"A case is a schedule run against a fresh eventbus.NewBus() inside a synctest bubble: 3 event types (each stateful or not), 1-4 emitters, "+
+		"A case is a schedule run against a fresh eventbus.NewBus() inside a synctest bubble: 3 event types (each stateful or not), 1-4 emitters "+
+			"(each opened with or without eventbus.Stateful: by default as its type says, but where a type has several emitters each of them may disagree - "+
+			"stateful then plain, plain then stateful, two against one, the first one closed before the next is opened; emitters are opened before step 0 in "+
+			"generated number and order or by a step in the middle of the history, after events of the type; TestStatefulEmittersDisagree concentrates on "+
+			"2-4 emitters of mostly one type, half of them disagreeing, with Emitter creation / Close a quarter of all actions), "+
 			"1-5 subscriptions (single type / several types / wildcard; BufSize 0,1,2,16 or default; reading eagerly, or only when granted N reads / "+
 			"resumed), 1-3 emit goroutines, and steps at increasing virtual instants; all actions of a step (Emit bursts, Subscribe, "+
 			"Subscription.Close (also twice), resume/grant reads, Emitter creation/Close (also twice), calls the bus has to refuse) start together and race "+
@@ -32,16 +36,20 @@ func TestMain(m *testing.M) {
 			"every reader resumed, then a last round of emits racing with the concurrent Close of everything. Events carry (emitter, number); "+
 			"every call is bracketed by logical stamps. Oracles at every quiescence point: completeness for drained subscribers, queued-count for "+
 			"slow ones (blocks, never drops), no duplicates, per-emitter order, gap-free prefix before Close was called, retained event first and "+
-			"most recent for stateful types, nothing of a closed subscription / failed Emit / later Emit delivered, closed channel after Close, "+
+			"most recent for stateful types (a type is stateful from the moment any emitter opened with Stateful was returned, and stays so while the type is in "+
+			"use, whichever emitters - with or without Stateful - are opened or closed for it afterwards, the declaring one included; every later Emit of any of "+
+			"its emitters becomes the remembered event; before any emitter declared the type stateful nothing emitted earlier may be replayed), "+
+			"nothing of a closed subscription / failed Emit / later Emit delivered, closed channel after Close, "+
 			"every blocked Emit justified by a full unread subscriber (one that Subscribe returned: never a refused call) and released by read or Close, "+
 			"every other call (refused ones included) returned, bubble exits. "+
 			"NON-TRIVIAL = a Subscription.Close or Emitter.Close overlapped an Emit that could reach it (blocked or in flight), or a Subscribe to a "+
-			"stateful type that already had an event overlapped an Emit of that type, or a refused Subscribe named well-formed types before its offending "+
+			"stateful type that already had an event overlapped an Emit of that type, or the retained event was demanded from and checked on a subscriber "+
+			"to a type whose emitters disagreed on Stateful at that point, or a refused Subscribe named well-formed types before its offending "+
 			"element and more events of such a type than the buffer it asked for were emitted afterwards. DISTINCT = distinct (specification, executed step trace).",
 		"interleavings inside one virtual instant come from the Go scheduler (plus generated runtime.Gosched counts); they are sampled, not enumerated",
 		"actions that could leave a goroutine waiting on a bus mutex behind an emit stalled past the end of the step are not scheduled (a mutex wait is invisible to synctest); a stall is always resolvable within a step by resume/close",
 		"one goroutine at a time uses a given emitter for a burst only when no other burst of it is unfinished on the same emit goroutine; order is asserted between events of one emitter whose Emit calls did not overlap",
-		"every emitter of a stateful type is created with eventbus.Stateful; a retained event is demanded only while an emitter or typed subscription of the type existed continuously since that event",
+		"a retained event is demanded only when, by the call stamps alone, the type was in use without interruption (a chain of overlapping lifetimes of emitters returned and not yet asked to close, and of typed subscriptions) from the moment the Stateful emitter that declared it was returned, over the Emit of the event, until Subscribe returned: the bus documents that a type's state lives as long as it has emitters or subscribers; an Emitter call that the bus refuses declares nothing",
 		"a bubble that cannot reach quiescence within the harness watchdog is reported as a violation (mutex deadlock of the bus)",
 		"refused calls are the ones the API documents as errors (element that is not a pointer, wildcard inside a list, option error, Emitter for a non-pointer / the wildcard); nil elements (the bus panics on them) and lists naming one type twice (accepted by the bus) are not generated; a refused call is planned as a transient user of the locks the accepted call would take",
 	)
@@ -64,17 +72,26 @@ type profile struct {
 	bufs        []int
 	bursts      []int
 	preAllSubs  bool
+	disagreePct int // per emitter of a type that has several: chance that its Stateful option differs from the type's
+	sameTypePct int // per emitter after the first: chance that it gets the type of the first (0 = one in three)
+	minEms      int // at least this many emitters (0 = 1)
+	lateEmsPct  int // chance that only the first emitter exists before step 0 (the others are opened by steps of the history)
 }
 
 var kindNames = []string{"emit", "sub", "closeSub", "resume", "grant", "closeEm", "newEm", "bad"}
 
 var (
 	profGeneral = profile{name: "general", maxSteps: 6, minActs: 1, maxActs: 5, gaps: []int{0, 1, 1, 600, 1100},
-		kinds: []int{42, 11, 10, 7, 10, 7, 6, 12}, badPct: 40, eagerPct: 45, bufs: []int{0, 0, 1, 1, 2, 2, 16, -1}, bursts: []int{1, 1, 2, 3, 3, 5, 18}}
+		kinds: []int{42, 11, 10, 7, 10, 7, 6, 12}, badPct: 40, eagerPct: 45, bufs: []int{0, 0, 1, 1, 2, 2, 16, -1}, bursts: []int{1, 1, 2, 3, 3, 5, 18}, disagreePct: 15}
 	profRaces = profile{name: "races", maxSteps: 3, minActs: 3, maxActs: 9, gaps: []int{0, 0, 1},
-		kinds: []int{40, 18, 16, 4, 4, 9, 9, 14}, badPct: 40, eagerPct: 75, bufs: []int{0, 1, 2, 16, 16, -1}, bursts: []int{1, 2, 3, 4, 6}}
+		kinds: []int{40, 18, 16, 4, 4, 9, 9, 14}, badPct: 40, eagerPct: 75, bufs: []int{0, 1, 2, 16, 16, -1}, bursts: []int{1, 2, 3, 4, 6}, disagreePct: 15}
 	profStateful = profile{name: "stateful", allStateful: true, maxSteps: 5, minActs: 1, maxActs: 5, gaps: []int{0, 1, 1, 1100},
-		kinds: []int{45, 22, 8, 6, 8, 5, 6, 12}, badPct: 40, eagerPct: 60, bufs: []int{0, 1, 2, 2, 16, -1}, bursts: []int{1, 1, 2, 3}}
+		kinds: []int{45, 22, 8, 6, 8, 5, 6, 12}, badPct: 40, eagerPct: 60, bufs: []int{0, 1, 2, 2, 16, -1}, bursts: []int{1, 1, 2, 3}, disagreePct: 15}
+	// several emitters of (mostly) one type that disagree on Stateful, opened and closed all
+	// along the history, with subscriptions arriving in between
+	profEmitters = profile{name: "emitters", maxSteps: 7, minActs: 1, maxActs: 4, gaps: []int{0, 1, 1, 1, 600},
+		kinds: []int{32, 20, 6, 4, 5, 12, 17, 4}, badPct: 15, eagerPct: 70, bufs: []int{0, 1, 2, 16, 16, -1}, bursts: []int{1, 1, 2, 3},
+		disagreePct: 50, sameTypePct: 75, minEms: 2, lateEmsPct: 50}
 )
 
 func weighted(rt *rapid.T, label string, w []int) int {
@@ -152,19 +169,46 @@ func genBad(rt *rapid.T, p profile, live []int) badSpec {
 
 func genScenario(rt *rapid.T, p profile) *scenario {
 	sc := &scenario{}
+	var typeStateful [nTypes]bool
 	for t := 0; t < nTypes; t++ {
-		sc.Stateful[t] = p.allStateful || rapid.Bool().Draw(rt, "stateful")
+		typeStateful[t] = p.allStateful || rapid.Bool().Draw(rt, "stateful")
 	}
 	sc.Workers = rapid.IntRange(1, 3).Draw(rt, "workers")
-	nEm := rapid.IntRange(1, 4).Draw(rt, "emitters")
+	nEm := rapid.IntRange(max(1, p.minEms), 4).Draw(rt, "emitters")
 	usedType := [nTypes]bool{}
+	emsOfType := [nTypes]int{}
 	for i := 0; i < nEm; i++ {
 		t := rapid.IntRange(0, nTypes-1).Draw(rt, "emType")
-		if i > 0 && rapid.IntRange(0, 2).Draw(rt, "sameType") == 0 {
+		same := false
+		if i > 0 && p.sameTypePct == 0 {
+			same = rapid.IntRange(0, 2).Draw(rt, "sameType") == 0
+		} else if i > 0 {
+			same = rapid.IntRange(0, 99).Draw(rt, "sameTypePct") < p.sameTypePct
+		}
+		if same {
 			t = sc.Ems[0] // several emitters of one type are the interesting case
 		}
 		sc.Ems = append(sc.Ems, t)
 		usedType[t] = true
+		emsOfType[t]++
+	}
+	// Which emitters ask for Stateful: by default all emitters of a stateful type and none of
+	// a plain one; where a type has several emitters, each of them may disagree with that
+	// (stateful then plain, plain then stateful, two against one, ... in creation order: the
+	// first PreEms emitters are opened in index order before step 0, the others by newEm
+	// actions at generated steps in generated order; closeEm actions fall in between).
+	for _, t := range sc.Ems {
+		st := typeStateful[t]
+		if emsOfType[t] > 1 && rapid.IntRange(0, 99).Draw(rt, "disagree") < p.disagreePct {
+			st = !st
+		}
+		sc.EmStateful = append(sc.EmStateful, st)
+	}
+	for t := 0; t < nTypes; t++ {
+		sc.Stateful[t] = typeStateful[t] && emsOfType[t] == 0 // no emitter: irrelevant, keep what was drawn
+	}
+	for i, t := range sc.Ems {
+		sc.Stateful[t] = sc.Stateful[t] || sc.EmStateful[i]
 	}
 	var live []int
 	for t := 0; t < nTypes; t++ {
@@ -198,6 +242,9 @@ func genScenario(rt *rapid.T, p profile) *scenario {
 		}
 	}
 	sc.PreEms = rapid.IntRange(1, nEm).Draw(rt, "preEms")
+	if p.lateEmsPct > 0 && rapid.IntRange(0, 99).Draw(rt, "lateEms") < p.lateEmsPct {
+		sc.PreEms = 1
+	}
 	sc.PreSubs = rapid.IntRange(0, nSub).Draw(rt, "preSubs")
 	if p.preAllSubs {
 		sc.PreSubs = nSub
@@ -316,7 +363,7 @@ func genScenario(rt *rapid.T, p profile) *scenario {
 
 func specString(sc *scenario) string {
 	var b strings.Builder
-	fmt.Fprintf(&b, "st=%v w=%d em=%v pre=%d/%d", sc.Stateful, sc.Workers, sc.Ems, sc.PreEms, sc.PreSubs)
+	fmt.Fprintf(&b, "st=%v/%v w=%d em=%v pre=%d/%d", sc.Stateful, sc.EmStateful, sc.Workers, sc.Ems, sc.PreEms, sc.PreSubs)
 	for _, s := range sc.Subs {
 		fmt.Fprintf(&b, " %s%v/%d/%v", s.Kind, s.Types, s.Buf, s.Eager)
 	}
@@ -403,11 +450,21 @@ func TestBusConcurrentRaces(t *testing.T) { propSchedules(t, profRaces, 18000, 7
 // TestStatefulReplay: every type stateful, subscriptions arriving between and during emits.
 func TestStatefulReplay(t *testing.T) { propSchedules(t, profStateful, 9000, 350000) }
 
+// TestStatefulEmittersDisagree: two to four emitters, mostly of one type, half of which
+// disagree with the others on Stateful; emitters are opened and closed all along the
+// history (Emitter creation / Emitter.Close are a quarter of the actions), subscriptions
+// arrive in between. "A subscriber to a stateful event type first receives the most recent
+// earlier event": a type is stateful once any of its emitters declared it so, whichever
+// emitters were opened or closed for it afterwards, and every later emit refreshes the
+// remembered event.
+func TestStatefulEmittersDisagree(t *testing.T) { propSchedules(t, profEmitters, 9000, 300000) }
+
 // TestBlockedEmitEnumerated enumerates the basic stall shapes completely: one slow
 // subscriber of each kind and buffer size (optionally next to an eager one), a burst of
 // cap+2 events that must stall after exactly cap of them, a stall shorter or longer than
 // the 1 s slow-consumer warning, resolved by resume / Close / double Close / a grant of one
-// read followed by Close; with and without a stateful type and a retained event.
+// read followed by Close; without a stateful type, and with one and a retained event where
+// both emitters of the type, only the first or only the second one asked for Stateful.
 func TestBlockedEmitEnumerated(t *testing.T) {
 	name := t.Name()
 	// one rapid "case" per shard carries the whole (sharded) enumeration, so that the
@@ -422,10 +479,17 @@ func enumerateBlocked(t *testing.T, rt *rapid.T, name string) {
 		for _, buf := range []int{0, 1, 2, 16, -1} {
 			for _, gap := range []int{1, 1500} {
 				for _, resolve := range []string{"resume", "close", "close2", "grant-close", "grant-resume"} {
-					for _, stateful := range []bool{false, true} {
+					// who asks for Stateful: neither emitter, both, only the first one opened (e0,
+					// which emits the burst), only the second one (e1, which emits the event that
+					// is to be remembered); in the last three the type is stateful
+					for _, stMode := range []string{"none", "both", "first-only", "second-only"} {
+						stateful := stMode != "none"
 						for _, withEager := range []bool{false, true} {
 							idx++
-							if !hx.Mine(idx) {
+							// scattered over the shards (the plain index would give a shard the same
+							// few (stMode, withEager) combinations throughout: the inner loops have 8
+							// combinations, the shard counts are 4 and 16)
+							if !hx.Mine(int((uint32(idx) * 2654435761) >> 7)) {
 								continue
 							}
 							sp := subSpec{Kind: kind, Buf: buf}
@@ -437,6 +501,7 @@ func enumerateBlocked(t *testing.T, rt *rapid.T, name string) {
 							}
 							sc := &scenario{Workers: 2, Ems: []int{0, 0}, Subs: []subSpec{sp}, PreEms: 2, PreSubs: 0}
 							sc.Stateful[0] = stateful
+							sc.EmStateful = []bool{stMode == "both" || stMode == "first-only", stMode == "both" || stMode == "second-only"}
 							if withEager {
 								sc.Subs = append(sc.Subs, subSpec{Kind: "single", Types: []int{0}, Buf: 1, Eager: true})
 							}
@@ -473,13 +538,13 @@ func enumerateBlocked(t *testing.T, rt *rapid.T, name string) {
 									step{GapMs: 1, Acts: []action{{K: "resume", S: 0}}})
 							}
 							sc.FinalBursts = []action{{K: "emit", W: 0, E: 0, N: 2}, {K: "emit", W: 1, E: 1, N: 2}}
-							res := bubbleRun(t, rt, sc, fmt.Sprintf("kind=%s buf=%d gap=%d resolve=%s stateful=%v withEager=%v: ", kind, buf, gap, resolve, stateful, withEager))
+							res := bubbleRun(t, rt, sc, fmt.Sprintf("kind=%s buf=%d gap=%d resolve=%s stateful=%v withEager=%v: ", kind, buf, gap, resolve, stMode, withEager))
 							stats.CaseEnumerated(name, res.nontrivial, res.labels...)
 							if stats.WantSample(name) {
 								stats.Sample(name, map[string]any{"scenario": sc, "executed": res.trace, "labels": res.labels})
 							}
 							if res.failure != "" {
-								rt.Fatalf("kind=%s buf=%d gap=%d resolve=%s stateful=%v withEager=%v: %s\nexecuted: %s", kind, buf, gap, resolve, stateful, withEager, res.failure, res.trace)
+								rt.Fatalf("kind=%s buf=%d gap=%d resolve=%s stateful=%v withEager=%v: %s\nexecuted: %s", kind, buf, gap, resolve, stMode, withEager, res.failure, res.trace)
 							}
 							// the enumeration is only meaningful if the stall really happened
 							stalled := false
